@@ -30,7 +30,9 @@ desc = {
  'all240_seed2_final.log': 'all 240, seed 2, harness as of the start of round 7',
  'round7_first_run_seed0.log': 'round 7 (M, N) FIRST RUN against the harness that had never seen them: 26 of 40',
  'round11_first_run_seed0.log': 'round 11 (U, V; twelve properties) FIRST RUN against the harness that had never seen them: 15 of 24',
- 'all424_seed0.log': 'all 424, seed 0, final harness',
+ 'round12_first_run_seed0.log': 'round 12 (U, V; the other eight properties) FIRST RUN against the harness that had never seen them: 11 of 16',
+ 'all440_seed0.log': 'all 440, seed 0, harness after the round-12 extensions (scratch worktrees of /repo before the D19 repair)',
+ 'all424_seed0.log': 'all 424, seed 0, harness as of the end of round 11',
  'all424_seed1.log': 'all 424, seed 1 (the seed `vp check` uses), final harness',
  'round10_first_run_seed0.log': 'round 10 (S, T) FIRST RUN against the harness that had never seen them: 31 of 40',
  'all400_seed0.log': 'all 400, seed 0, final harness',
